@@ -3,6 +3,7 @@
 //! Every subcommand writes one JSON object per line: a correspondence case (see util::Case)
 //! or a witness result.
 mod archive;
+mod capi;
 mod cli;
 mod comp;
 mod derive;
@@ -30,6 +31,10 @@ fn main() {
         eprintln!("usage: harness <subcommand> [--seed N] [--tier quick|thorough] [--out FILE]");
         std::process::exit(2);
     }
+    if args[1] == "c20-child" {
+        capi::child_main();
+        return;
+    }
     let seed: u64 = arg(&args, "--seed").and_then(|s| s.parse().ok()).unwrap_or(1);
     let tier = arg(&args, "--tier").unwrap_or_else(|| "quick".into());
     let outp = arg(&args, "--out");
@@ -47,6 +52,7 @@ fn main() {
             let mut all = enc::witnesses();
             all.extend(writer::witnesses());
             all.extend(repair::witnesses());
+            all.extend(capi::witnesses());
             all.extend(comp::witnesses());
             all.extend(fuzz::witnesses());
             for (name, prop, f) in all {
@@ -77,6 +83,7 @@ fn main() {
             fuzz::child_main(seed, &tier, num("--shard"), num("--of").max(1), num("--from"), &arg(&args, "--bases").unwrap_or_default());
         }
         "c08-wit" => fuzz::wit_child(args.get(2).map(|s| s.as_str()).unwrap_or("")),
+        "c20" => capi::c20_cases(&mut rng, &tier, &mut out),
         "c10" => history::c10_cases(&mut rng, &tier, &mut out),
         "c12" => history::c12_cases(&mut rng, &tier, &mut out),
         "c13" => history::c13_cases(&mut rng, &tier, &mut out),
